@@ -2,6 +2,7 @@ import MosnVerif.Lemmas.ConfigPairs
 import MosnVerif.Lemmas.ConfigDir
 import MosnVerif.Lemmas.ConfigPairs2
 import MosnVerif.Lemmas.UpdatesMode
+import MosnVerif.Lemmas.ConfigOrder
 /-!
 # C19 — configuration survives dump and reload unchanged (property theorems only)
 
@@ -497,5 +498,106 @@ example :
     ((reloadRouter (fun l => l) (run o [.addOrUpdateRouters dirCfg, .addOrUpdateRouters stCfg]) "r").map
       (·.map (fun c => (c.path, c.vhosts.map (·.name))))) = some (some ("", ["v2"])) := by decide
 end dynupd
+
+/-! ## order of the lists across dump and reload (`transferConfig`'s reassembly, regenerated as `Gen.ConfigTransfer`) -/
+section order
+open MosnVerif.Model.OrderTypes MosnVerif.Model.ConfigOrder MosnVerif.Lemmas.ConfigOrder
+
+/-- **dump_reload_preserves_order**: for every reassembly plan that copies `extends` in order, never sorts it and edits no
+element (`planOK`; sorting the name-keyed lists is allowed), every configuration `c` (names and extend types may repeat,
+lists inside elements are arbitrary), every iteration order of the three maps and every comparison used by the sort calls:
+with `run = load c` the running configuration, `d` its dump and `re = load d` the restart from the dump —
+the dumped and the reloaded `extends` ARE the running list (same elements, same order), and each name-keyed list of the
+dump and of the reload is a permutation of the running table (whole elements: every ordered list inside a listener,
+cluster or router is unchanged), with the same element under every name. -/
+theorem dump_reload_preserves_order {κ : Type} [DecidableEq κ] (le : κ → κ → Bool) (p : Plan) (hp : planOK p = true)
+    (c : Cfg κ) (itL itC itR : Table κ → Table κ)
+    (hL : ∀ t, (itL t).Perm t) (hC : ∀ t, (itC t).Perm t) (hR : ∀ t, (itR t).Perm t) :
+    let run := load c
+    let d := dumpBy le p itL itC itR run
+    let re := load d
+    d.extends_ = run.extends_ ∧ re.extends_ = run.extends_ ∧
+    d.listeners.Perm run.listeners ∧ d.clusters.Perm run.clusters ∧ d.routers.Perm run.routers ∧
+    re.listeners.Perm run.listeners ∧ re.clusters.Perm run.clusters ∧ re.routers.Perm run.routers ∧
+    (∀ k, re.listeners.find? (fun e => e.key = k) = run.listeners.find? (fun e => e.key = k)) ∧
+    (∀ k, re.clusters.find? (fun e => e.key = k) = run.clusters.find? (fun e => e.key = k)) ∧
+    (∀ k, re.routers.find? (fun e => e.key = k) = run.routers.find? (fun e => e.key = k)) := by
+  intro run d re
+  simp only [planOK, Bool.and_eq_true, beq_iff_eq, List.isEmpty_iff] at hp
+  obtain ⟨⟨⟨⟨⟨hx, hx0⟩, he⟩, hl⟩, hc⟩, hr⟩ := hp
+  have hdx : d.extends_ = run.extends_ := by
+    show dumpList le p.extends_ p.edits id _ = _
+    rw [he]; exact dumpList_ordered_eq le _ _ hx hx0 id _
+  have hdl : d.listeners.Perm run.listeners := by
+    show (dumpList le p.listeners p.edits itL _).Perm _
+    rw [he]; exact dumpList_keyed_perm le _ _ hl itL hL _
+  have hdc : d.clusters.Perm run.clusters := by
+    show (dumpList le p.clusters p.edits itC _).Perm _
+    rw [he]; exact dumpList_keyed_perm le _ _ hc itC hC _
+  have hdr : d.routers.Perm run.routers := by
+    show (dumpList le p.routers p.edits itR _).Perm _
+    rw [he]; exact dumpList_keyed_perm le _ _ hr itR hR _
+  have nl : (keys run.listeners).Nodup := loadTable_keys_nodup _
+  have nc : (keys run.clusters).Nodup := loadTable_keys_nodup _
+  have nr : (keys run.routers).Nodup := loadTable_keys_nodup _
+  have nx : (keys run.extends_).Nodup := loadTable_keys_nodup _
+  have hrl : re.listeners.Perm run.listeners := reload_perm hdl nl
+  have hrc : re.clusters.Perm run.clusters := reload_perm hdc nc
+  have hrr : re.routers.Perm run.routers := reload_perm hdr nr
+  refine ⟨hdx, ?_, hdl, hdc, hdr, hrl, hrc, hrr, fun k => find_perm hrl nl k, fun k => find_perm hrc nc k,
+    fun k => find_perm hrr nr k⟩
+  show loadTable d.extends_ = run.extends_
+  rw [hdx]; exact loadTable_of_nodup _ nx
+
+/-- **regenerated_transfer_keeps_order**: the plan regenerated from the body of `transferConfig` is complete (all four lists
+found) and keeps order where order matters. -/
+theorem regenerated_transfer_keeps_order : (genPlan.map planOK) = some true := by decide +kernel
+
+/-- **transfer_dump_reload_preserves_order**: `dump_reload_preserves_order` for the regenerated plan of the real function. -/
+theorem transfer_dump_reload_preserves_order {κ : Type} [DecidableEq κ] (le : κ → κ → Bool) (p : Plan) (h : genPlan = some p)
+    (c : Cfg κ) (itL itC itR : Table κ → Table κ)
+    (hL : ∀ t, (itL t).Perm t) (hC : ∀ t, (itC t).Perm t) (hR : ∀ t, (itR t).Perm t) :
+    (load (dumpBy le p itL itC itR (load c))).extends_ = (load c).extends_ ∧
+    (dumpBy le p itL itC itR (load c)).extends_ = (load c).extends_ ∧
+    (∀ k, (load (dumpBy le p itL itC itR (load c))).listeners.find? (fun e => e.key = k) = (load c).listeners.find? (fun e => e.key = k)) ∧
+    (∀ k, (load (dumpBy le p itL itC itR (load c))).clusters.find? (fun e => e.key = k) = (load c).clusters.find? (fun e => e.key = k)) ∧
+    (∀ k, (load (dumpBy le p itL itC itR (load c))).routers.find? (fun e => e.key = k) = (load c).routers.find? (fun e => e.key = k)) := by
+  have hok : planOK p = true := by
+    have := regenerated_transfer_keeps_order
+    rw [h] at this
+    simpa using this
+  have := dump_reload_preserves_order le p hok c itL itC itR hL hC hR
+  exact ⟨this.2.1, this.1, this.2.2.2.2.2.2.2.2.1, this.2.2.2.2.2.2.2.2.2.1, this.2.2.2.2.2.2.2.2.2.2⟩
+
+-- non-vacuity: a configuration with repeated extend types in non-alphabetical order, reversed map iteration
+example :
+    let x (k n : Nat) : Elem Nat := ⟨k, [("cfg", [n])]⟩
+    let c : Cfg Nat := ⟨[⟨2, [("StreamFilters", [9, 3, 5])]⟩, ⟨1, []⟩], [⟨7, [("Hosts", [4, 2])]⟩], [], [x 5 0, x 2 1, x 9 2, x 2 3]⟩
+    let p : Plan := ⟨⟨"Servers[0].Listeners", .fromMap "Listener", 1⟩, ⟨"ClusterManager.Clusters", .fromMap "Cluster", 0⟩,
+      ⟨"Servers[0].Routers", .fromMap "Routers", 0⟩, ⟨"Extends", .inOrder "ExtendConfigs", 0⟩, []⟩
+    planOK p = true ∧ (load c).extends_ = [x 5 0, x 2 3, x 9 2] ∧
+    (dumpBy Nat.ble p List.reverse List.reverse List.reverse (load c)).listeners = [⟨1, []⟩, ⟨2, [("StreamFilters", [9, 3, 5])]⟩] ∧
+    (load (dumpBy Nat.ble p List.reverse List.reverse List.reverse (load c))).extends_ = [x 5 0, x 2 3, x 9 2] := by decide +kernel
+
+/-- **sorted_extends_reordered** (negation witness): a plan that sorts `extends` by type (the 'deterministic dump') is
+refused by `planOK`, and a restart from its dump runs the extensions in another order. -/
+theorem sorted_extends_reordered :
+    let x (k : Nat) : Elem Nat := ⟨k, []⟩
+    let c : Cfg Nat := ⟨[], [], [], [x 5, x 2, x 9]⟩
+    let p : Plan := ⟨⟨"Servers[0].Listeners", .fromMap "Listener", 1⟩, ⟨"ClusterManager.Clusters", .fromMap "Cluster", 1⟩,
+      ⟨"Servers[0].Routers", .fromMap "Routers", 1⟩, ⟨"Extends", .inOrder "ExtendConfigs", 1⟩, []⟩
+    planOK p = false ∧ (load c).extends_ = [x 5, x 2, x 9] ∧
+    (load (dumpBy Nat.ble p id id id (load c))).extends_ = [x 2, x 5, x 9] := by decide +kernel
+
+/-- **sorted_stream_filters_reordered** (negation witness): a loop edit sorting a list inside every listener is refused by
+`planOK`, and the reloaded listener has its stream filters in another order. -/
+theorem sorted_stream_filters_reordered :
+    let c : Cfg Nat := ⟨[⟨1, [("StreamFilters", [9, 3, 5]), ("FilterChains", [8, 1])]⟩], [], [], []⟩
+    let p : Plan := ⟨⟨"Servers[0].Listeners", .fromMap "Listener", 0⟩, ⟨"ClusterManager.Clusters", .fromMap "Cluster", 0⟩,
+      ⟨"Servers[0].Routers", .fromMap "Routers", 0⟩, ⟨"Extends", .inOrder "ExtendConfigs", 0⟩, [⟨"Servers[0].Listeners", "StreamFilters"⟩]⟩
+    planOK p = false ∧
+    (load (dumpBy Nat.ble p id id id (load c))).listeners = [⟨1, [("StreamFilters", [3, 5, 9]), ("FilterChains", [8, 1])]⟩] := by
+  decide +kernel
+end order
 
 end MosnVerif.Props.C19
